@@ -86,7 +86,7 @@ def generate(rng, tier):
         if kind == 'raise':
             f['exc'] = rng.choice(['ImportError', 'ValueError', 'KeyboardInterrupt', 'SystemExit', 'SimBaseExc', 'RuntimeError'])
         if kind == 'syspath':
-            f['how'] = rng.choice(['insert0', 'append', 'remove_tmp', 'dup_tmp'])
+            f['how'] = rng.choice(['insert0', 'append', 'remove_tmp', 'dup_tmp', 'rebind', 'rebind'])
             if rng.random() < 0.4:
                 f['then_raise'] = rng.choice(['ImportError', 'KeyboardInterrupt', 'ValueError'])
         plan.append(f)
@@ -132,6 +132,19 @@ def generate(rng, tier):
         env['pkgroot_on_path'] = rng.choice([0, 1, 2])
     if colored and rng.random() < 0.6:
         env['no_pygments'] = True
+    if rng.random() < 0.1:
+        # a terminal that cannot show everything (LANG=C), and source text that is not ascii
+        env['ascii_terminal'] = True
+        for dtid, dt, mod in W.iter_doctests(world):
+            for st in dt['steps']:
+                if st['form'] == 'comment':
+                    st['nonascii'] = True
+            if rng.random() < 0.7:
+                base = max(x['i'] for x in dt['steps']) + 1
+                dt['steps'].insert(rng.randint(0, len(dt['steps'])),
+                                   {'i': base, 'form': 'comment', 'pts': [], 'ps2': False, 'sep': 'none', 'nonascii': True})
+                dt['steps'][0]['sep'] = 'none'
+                gen.fix_chunk_starts(dt['steps'])
     if env.get('pkgroot_on_path') is not None:
         # (a module body that deletes xdoctest's temporary entry *while an equal entry of the
         # user exists* defeats the documented recovery heuristic of PythonPathContext, which
@@ -192,6 +205,18 @@ def check(rec):
             out.append(common.viol('C12.' + r, '%s after DocTest.run %s ended by %s' % (
                 detail, common.exec_label(e), common.how_ended(e)),
                 dtid=e['dtid'], k=e['k'], how=common.how_ended(e)))
+    # the front ends as a whole: after doctest_module / main() the process is as it was found
+    for o in rec['ops']:
+        if o['kind'] not in ('runner', 'cli') or o.get('snap1') is None:
+            continue
+        log = o.get('import_log', [])
+        added = [x[2] for x in log if x[1] == 'added']
+        removed = [x[2] for x in log if x[1] == 'removed']
+        edited = any(x[1] == 'removed_tmp' for x in log)
+        body_filter = any(x[1] == 'warnfilter' for x in log)
+        for r, detail in harness.compare_snaps(o['snap0'], o['snap1'], (added, removed, False, edited)):
+            out.append(common.viol('C12.' + r, '%s after op%d %s %s %s' % (detail, o['op'], o['kind'], o['how'], o['exc'] or ''),
+                                   op=o['op'], how=o['how']))
     for im in rec['imports']:
         if im.get('snap1') is None:
             continue
